@@ -9,6 +9,7 @@ import SideVerif.Drive.C02
 import SideVerif.Drive.C03
 import SideVerif.Drive.C06
 import SideVerif.Drive.C08
+import SideVerif.Drive.C17
 open Lean
 namespace SideVerif.Drive
 
@@ -27,6 +28,7 @@ def dispatch (op : String) (j : Json) : Except String Json :=
   | "c03" => c03 j
   | "c06" => c06 j
   | "c08" => c08 j
+  | "c17" => c17 j
   | "ping" => pure (Json.str "pong")
   | _ => throw s!"unknown op {op}"
 
